@@ -5,6 +5,7 @@
 (*                                                                          *)
 (* MODE = "gen": TLC enumerates the matrix of cells                         *)
 (*     kind x documented argument form x content size x notation position   *)
+(*     x kind of the collection passed as the sequence argument             *)
 (* MODE = "check": for every cell and element type the harness has called   *)
 (*   the module-level constructor, the class-level constructor with the     *)
 (*   same data and (source form) ParseSource; each outcome is               *)
@@ -37,9 +38,17 @@ Sizes(f) == IF f \in {"none", "collator"} THEN {0}
             ELSE {0, 1, 2, 3, DefaultCap - 1, DefaultCap, DefaultCap + 1, 20}
 Positions == {"absent", "first", "last"}
 
-Cells == {[kind |-> k, form |-> f, n |-> n, npos |-> p] : k \in Kinds, f \in UNION {Forms(kk) : kk \in Kinds}, n \in 0..20, p \in Positions}
-Matrix == {c \in Cells : c.form \in Forms(c.kind) /\ c.n \in Sizes(c.form)}
-AssocCells == {[kind |-> "Association", form |-> "pair", n |-> i, npos |-> p] : i \in 0..4, p \in Positions}
+\* the `sequence` argument may be a collection of any kind: a set brings its own
+\* order (possibly that of a custom collator), a stack lists its top first
+Srcs(k, f) == IF f \notin {"sequence", "collator+sequence"} THEN {""}
+              ELSE IF k \in {"Catalog", "Map"} THEN {"List", "Array", "Catalog"}
+              ELSE {"List", "Array", "Set", "SetRev", "Stack", "Queue"}
+AllSrcs == {"", "List", "Array", "Set", "SetRev", "Stack", "Queue", "Catalog"}
+
+Cells == {[kind |-> k, form |-> f, n |-> n, npos |-> p, src |-> s] :
+             k \in Kinds, f \in UNION {Forms(kk) : kk \in Kinds}, n \in 0..20, p \in Positions, s \in AllSrcs}
+Matrix == {c \in Cells : c.form \in Forms(c.kind) /\ c.n \in Sizes(c.form) /\ c.src \in Srcs(c.kind, c.form)}
+AssocCells == {[kind |-> "Association", form |-> "pair", n |-> i, npos |-> p, src |-> ""] : i \in 0..4, p \in Positions}
 
 Recs == IF MODE = "check" THEN ndJsonDeserialize(IOEnv.TRACE) ELSE <<>>
 
